@@ -284,6 +284,12 @@ func (ma *mountAnalysis) publishTopic(p ssa.Value, at ssa.Instruction, depth int
 		case cl.Is(ma.logGet):
 			return mMounted, "entry read back from the message log"
 		}
+		// a module constructor returning one literal (willPublish(mountPoint, lwt)): the literal's Topic, arguments bound
+		if b := ma.c.builtObject(x); b != nil {
+			if tv := b.field("Topic"); tv != nil {
+				return ma.topic(tv, x, depth+1)
+			}
+		}
 	case *ssa.Parameter:
 		// consume callbacks receive log entries
 		fn := x.Parent()
